@@ -56,7 +56,7 @@ fn main() {
         match wl.as_str() {
             // upper-layer workloads observe the API; chmux hook events would only bloat their traces
             "rwlock" => install_hook_sink_for(&["rw_"]),
-            "robs_script" | "bcast" | "watch" | "typed_base" | "typed_mpsc" | "rtc" | "rtc_once" | "rfn" | "robs_chain" | "robs_err" | "robs_list" | "io" | "wiring" => {}
+            "robs_script" | "bcast" | "watch" | "typed_base" | "typed_mpsc" | "rtc" | "rtc_once" | "rfn" | "robs_chain" | "robs_err" | "robs_list" | "io" | "wiring" | "handle" | "lazy" => {}
             _ => install_hook_sink(),
         }
         match wl.as_str() {
@@ -141,6 +141,12 @@ fn main() {
             }
             "robs_chain" => {
                 rt.block_on(robs::chain_scenario(s, get("coll", 4)));
+            }
+            "handle" => {
+                rt.block_on(handles::handle_scenario(s, get("cut", 0) != 0));
+            }
+            "lazy" => {
+                rt.block_on(handles::lazy_scenario(s, get("cut", 0) != 0));
             }
             "wiring" => {
                 let o = wiring::WiringOpts { hops: get("hops", 0), max_ports: get("max_ports", 0), cut: get("cut", 0) != 0 };
